@@ -90,6 +90,7 @@ def marker_replay(_name):
 
 def main(tier, write_baseline=False):
     run = Run("C01", tier, "other", checker_cmd=common.checker_cmd("C01", tier))
+    run.confirm_abstracted = (':set_default_doc/',)  # refutations of these exact contracts count only with an input that fails on the real code (report.Run.violation)
     M.RAISE_CTX.update(prop="C01", write=bool(write_baseline))
     run.trusted_base.update(["cddvc E1 (string VCs with Python slice/index semantics)", "z3 5.1"])
     refuted = e1.run_contracts(run, "contracts.C01")
